@@ -220,6 +220,27 @@ fn c02_oracle(m: &MLib, ctx: &mut Ctx) -> Result<(), String> {
         ctx.nontrivial(hash_of(m));
         ctx.sample("decoded by the reference decoder", || summary(m));
     }
+    // every 8th library (by content) is also written to a destination that takes a few bytes per call:
+    // the bytes that arrive must be the same stream
+    if hash_of(m) % 8 == 5 {
+        ctx.label("also written through a writer that accepts a few bytes per call");
+        struct Trickle(Vec<u8>, usize);
+        impl std::io::Write for Trickle {
+            fn write(&mut self, b: &[u8]) -> std::io::Result<usize> {
+                let n = b.len().min(self.1);
+                self.0.extend_from_slice(&b[..n]);
+                Ok(n)
+            }
+            fn flush(&mut self) -> std::io::Result<()> {
+                Ok(())
+            }
+        }
+        let mut dest = Trickle(Vec::new(), 1 + (hash_of(m) % 5) as usize);
+        lib.write(&mut dest).map_err(|e| format!("write() to a slow destination failed although write() to memory succeeded: {:?}", e))?;
+        if dest.0 != bytes {
+            return Err(format!("a destination that accepts {} bytes per call received {} bytes, memory received {}: the streams differ", dest.1, dest.0.len(), bytes.len()));
+        }
+    }
     // every 16th library (by content) also goes through save() onto a path that already holds an
     // older, longer file: the file must hold exactly the stream, nothing left over
     if hash_of(m) % 16 == 0 {
